@@ -41,8 +41,8 @@ def gen_unit(r, n):
             else:
                 if r.random() < 0.3:   # aim at carries / the last index
                     ix = [n_ - 1 for n_ in nx]
-                    for j in range(r.randint(0, nd)):
-                        ix[r.randrange(nd)] = r.randint(0, nx[0] - 1) if False else ix[j % nd]
+                    for j in range(r.randint(0, nd - 1)):   # keep a suffix of maximal indices
+                        ix[j] = r.randint(0, nx[j] - 1)
                 else:
                     ix = [r.randint(0, n_ - 1) for n_ in nx]
                     if r.random() < 0.5:
@@ -252,6 +252,11 @@ def parse_hist_state(path, name="h"):
     return [float(t) for t in m.group(1).split()]
 
 
+def setup():
+    V.extract_model("C15", "coq/C15/Extract_C15.v", "props/C15/driver.ml", ["ocaml/fops.ml"])
+    V.build_prog("c15unit", ["props/C15/unit.cpp"])
+
+
 def check(run):
     r = V.rng("C15")
     quick = run.tier == "quick"
@@ -259,25 +264,16 @@ def check(run):
                        "file round trips; histogram scenarios: 1-3 exact distanceZ variables (periodic or not, custom grid blocks), "
                        "6-20 steps with values on edges/inside/outside, run boundaries, stepZeroData. distinct = distinct case text; "
                        "non-trivial = BIN on an edge or negative bin, ADDR/INCR with >=2 dims, RT, or a histogram with >=2 counted and >=1 rejected sample")
-    run.assumptions += V.TRUSTED_COMMON + [
+    run.assumptions += [
         "theorems are about the R instance of the model; the tie runs the float instance on dyadic inputs for which +,-,*,/ by the generated widths and floor are exact",
         "vector-variable histograms (gatherVectorColvars) are rejected at initialisation by this build, so that branch of the model is not exercised by the tie",
     ]
-    res = run.prove(PROP)
-    run.cov["trusted_base"] = V.TRUSTED_COMMON + ["axioms per theorem (Print Assumptions): " + json.dumps(res["assumptions"])]
-    try:
-        model = V.extract_model("C15", "coq/C15/Extract_C15.v", "props/C15/driver.ml", ["ocaml/fops.ml"])
-    except V.ModelBroken as e:
-        run.violation("tie:model-build", "the model no longer extracts/compiles: %s" % str(e)[-500:], {"kind": "model-build"}, found_input=False)
+    st = V.standard_start(run, PROP, "coq/C15/Extract_C15.v", "props/C15/driver.ml",
+                          {"c15unit": ["props/C15/unit.cpp"], "vsim": ["harness/vsim_main.cpp"]})
+    if st is None:
         return
-    try:
-        unit = V.build_prog("c15unit", ["props/C15/unit.cpp"])
-        vsim = V.build_prog("vsim", ["harness/vsim_main.cpp"])
-    except V.InfraError as e:
-        if "compilation of /repo failed" in str(e):
-            raise
-        run.violation("tie:harness-build", "the C15 harness no longer builds against the tree: %s" % str(e)[-800:], {"kind": "harness-build"}, found_input=False)
-        return
+    model, exes = st
+    unit, vsim = exes["c15unit"], exes["vsim"]
 
     # corpus first, then generated
     cases = []
